@@ -171,6 +171,12 @@ def run(ctx):
     ctx.sample({k: lines[0][k] for k in ("pto", "v", "keys", "has", "as", "aem", "observed")})
     ctx.sample({k: lines[-1][k] for k in ("fns", "nfff", "m", "k", "probes", "nf", "ref_milli", "run_milli")})
     bad = ctx.tlc_validate("Trace_C17", "Trace.cfg", [{k: v for k, v in ln.items() if k not in ("raw", "note")} for ln in lines])
+    ctx.selftest("Trace_C17", "Trace.cfg", [{k: v for k, v in ln.items() if k not in ('raw', 'note')} for ln in lines if ln["oid"] not in bad and (ln["outcome"] == "OK")], [
+        ("observed", lambda l: dict(l, observed=[[[l["observed"][0][0][0] + 1, l["observed"][0][0][1]]] + l["observed"][0][1:]] + l["observed"][1:]) if l.get("kind") != "alphas" else None),
+        ("scales", lambda l: dict(l, scales_ok=False) if l.get("kind") != "alphas" else None),
+        ("missing", lambda l: dict(l, read_missing=True) if l.get("kind") != "alphas" else None),
+        ("nf", lambda l: dict(l, nf=[l["nf"][0] + 1] + l["nf"][1:]) if l.get("kind") == "alphas" else None),
+        ("running", lambda l: dict(l, run_milli=3000) if l.get("kind") == "alphas" else None)])
     by = {ln["oid"]: ln for ln in lines}
     allob = {o["oid"]: o for o in obls + alph}
     for oid, clause in bad.items():
